@@ -72,7 +72,7 @@ PROPS = {
                         "from_path_proofs is only fed unordered input of length 2 (longer unordered input can make the real loop spin exponentially long)"],
     },
     "C16": {
-        "runs": IMG_CORPUS + [dict(IMG_RUN)],
+        "runs": IMG_CORPUS + [{"cmd": "image-prefix-shrink", "mode": "image", "cases": {"quick": 1, "thorough": 1}, "corpus": True}, dict(IMG_RUN)],
         "rule": IMG_RULE,
         "trusted_base": IMG_TB, "assumptions": IMG_ASSUME,
     },
@@ -107,7 +107,8 @@ PROPS = {
     },
     # ---------------- API-level properties: history engine (harness/src/db.rs) vs Lean `api` model ----------------
     "C01": {
-        "runs": DB_SCN(["empty-store-delete-only", "overwrite-huge-value-with-rollback"]) + [
+        "runs": DB_SCN(["empty-store-delete-only", "overwrite-huge-value-with-rollback"]) + IMG_CORPUS + [
+            {"cmd": "image-prefix-shrink", "mode": "image", "cases": {"quick": 1, "thorough": 1}, "corpus": True},
             DB("kv", 160, 1600, nops=16, big=True),
             DB("kv", 6, 60, nops=20, big=True, scale=100, shards_q=6),
             DB("general", 80, 800, nops=14),
